@@ -110,6 +110,56 @@ def s2_guards(ctx, r: Rust, arms):
                facts={'arm': [(list(map(str, c)), str(res)) for c, res in df.outcomes], 'needs': decide.f_show(f)})
 
 
+def s2b_equality(ctx, r: Rust):
+    """the equality the side conditions rely on (MP antecedent, claim == theorem) is structural: equal constructors and every field equal"""
+    from ..core import mir as _mir
+    where = 'rust/src/lib.rs'
+    ctx.ob('structural-equality', 'no-custom-ne', 'Pattern::ne' not in r.fns, 'Pattern defines its own `ne`; `!=` is no longer the negation of `==`', where)
+    if 'Pattern::eq' not in r.fns:
+        ctx.ob('structural-equality', 'Pattern::eq', False, 'Pattern has no PartialEq::eq in the crate', where)
+        return
+    SELFP, OTHER = ('param', 'self'), ('param', 'other')
+    per: dict[str, list] = {}
+    for p in r.paths('Pattern::eq'):
+        if p.end != 'return':
+            continue
+        var = None
+        for a, o in p.conds:
+            if a[0] == 'variant' and a[1] == SELFP and isinstance(o, str):
+                var = o
+        if var is None:
+            # the discriminant test: unequal constructors must give false
+            if p.ret != ('bool', False) and not any(a[0] == 'eq' and 'discr' in repr(a) and o is False for a, o in p.conds):
+                continue
+            continue
+        per.setdefault(var, []).append(p)
+    discr_checked = any(a[0] == 'eq' and 'discr' in repr(a) for p in r.paths('Pattern::eq') for a, _o in p.conds)
+    ctx.ob('structural-equality', 'constructors-compared', discr_checked, 'Pattern::eq does not compare the constructors', where)
+    for var, _d in r.enums.get('Pattern', []):
+        nfields = len(_mir.ENUM_FIELDS['Pattern'][var])
+        bad = []
+        for p in per.get(var, []):
+            compared = set()
+            for a, o in p.conds:
+                if a[0] == 'eq' and o is True:
+                    for side in (a[1], a[2]):
+                        if side[0] == 'field' and side[1] in (SELFP, OTHER) and side[2] == var:
+                            compared.add(side[3])
+            rv = p.ret
+            can_be_true = rv != ('bool', False)
+            if rv[0] == 'call' and rv[1] in ('PartialEq::eq',) or rv[0] == 'op' and rv[1] == 'Eq':
+                args = rv[2]
+                for side in args:
+                    if side[0] == 'field' and side[2] == var:
+                        compared.add(side[3])
+            if can_be_true and compared != set(range(nfields)):
+                bad.append(sorted(set(range(nfields)) - compared))
+        ok = var in per and not bad
+        ctx.ob('structural-equality', f'Pattern::eq/{var}', ok,
+               f'two {var} patterns can compare equal without field(s) {bad[:1]} being compared' if var in per else f'no arm for {var}',
+               where, facts={'fields': nfields})
+
+
 def s3_capture(ctx, r: Rust):
     for short, kind in (('apply_esubst', 'e'), ('apply_ssubst', 's')):
         got = RS.subst_outcomes(r, short)
@@ -220,6 +270,7 @@ def run(ctx):
     arms = M.rust_arms(r)
     s1_minting(ctx, r, arms)
     s2_guards(ctx, r, arms)
+    s2b_equality(ctx, r)
     s3_capture(ctx, r)
     s4_instantiation(ctx, r)
     s5_axioms(ctx, r, arms)
@@ -227,6 +278,7 @@ def run(ctx):
     ctx.floor('minting', 12)
     ctx.floor('guard', 10)
     ctx.floor('capture-guard', 4)
+    ctx.floor('structural-equality', 12)
     ctx.floor('constraint-check', 6)
     ctx.floor('axiom-schema', 5)
     ctx.floor('sound-arm', 40)
